@@ -61,6 +61,14 @@ Theorem C16_backend_reads (t : transport) (parts : list bytes) (tail : bytes) (s
 Proof. exact (client_message_arrives t parts tail sizes). Qed.
 Print Assumptions C16_backend_reads.
 
+Theorem C16_backend_gets_every_octet (t : transport) (parts : list bytes) (tail : bytes) (sizes : list nat) :
+  transparent t ->
+  tstream t = dot_write_all parts ++ tail ->
+  let '(out, e, d', t') := backend_reads sizes None (new_data_reader 0) t in
+  subseq (List.concat parts) out /\ e = Some REOF /\ tstream t' = tail.
+Proof. exact (client_message_nothing_dropped t parts tail sizes). Qed.
+Print Assumptions C16_backend_gets_every_octet.
+
 (* non-vacuity: a body with a bare LF, a dot line and an end-of-data look-alike, written in three pieces *)
 Example C16_witness :
   let parts := [bs "a" ++ [LF] ++ bs ".b"; [CR; LF] ++ bs "." ++ [CR]; [LF] ++ bs "c"] in
